@@ -11,6 +11,7 @@ from flax import errors
 from flax.core import scope as core_scope
 
 SEL = {'cond': 0, 'switch': 0, 'while': 1}     # branch taken by every cond / switch statement and trip count of every while statement of the current run
+TRACE_TRACED = [False]     # also report keys that are traced values (through jax.debug.callback); used by C05 only
 LIFT = [True]     # False: ignore the transform annotations and run the equivalent plain code
 TRACE = []          # ('key', path, stream_requested, key_data) / ('param', path, name, key_data)
 PROGS = {}
@@ -41,6 +42,7 @@ def ev(e, locals_, x):
 class ProgBase(nn.Module):
   prog_id: int = 0
   cls_id: int = 0
+  post: object = None       # an optional function applied to the returned value (a closure: two modules may differ only in what it closes over)
   sel: tuple = (0, 0, 1)      # (branch of every cond, branch of every switch, trip count of every while) for this run: a static attribute
 
   @nn.compact
@@ -57,6 +59,8 @@ class ProgBase(nn.Module):
         def init(key, shape, c=c, nm=nm, path=path):
           if not isinstance(key, jax.core.Tracer):     # Scope.param re-evaluates the initialiser abstractly for its shape check
             TRACE.append(('param', list(path), nm, kd(key)))
+          elif TRACE_TRACED[0]:       # inside a lifted jit / remat: the key is traced, report it when the computation runs (abstract evaluation runs no callback)
+            jax.debug.callback(lambda d, path=path, nm=nm: TRACE.append(('param', list(path), nm, [int(v) for v in np.asarray(d).reshape(-1)])), jax.random.key_data(key))
           return jnp.full(shape, c, dtype=jnp.int64)
         locals_[xv] = self.param(nm, init, (n,) if n else jnp.shape(x))     # n = 0: shaped like the input (a Dense kernel)
       elif k == 'var':
@@ -73,13 +77,15 @@ class ProgBase(nn.Module):
         key = self.make_rng(s[1])
         if not isinstance(key, jax.core.Tracer):
           TRACE.append(('key', list(self.path), s[1], kd(key)))
+        elif TRACE_TRACED[0]:
+          jax.debug.callback(lambda d, path=tuple(self.path), st=s[1]: TRACE.append(('key', list(path), st, [int(v) for v in np.asarray(d).reshape(-1)])), jax.random.key_data(key))
       elif k == 'let':
         locals_[s[1]] = ev(s[2], locals_, x)
       elif k == 'child':
         cls = get_class(s[2])
         if len(s) == 5 and LIFT[0]:
           cls = lifted_class(s[2], s[4])
-        insts[s[1]] = cls(self.prog_id, s[2], self.sel, name=s[3])
+        insts[s[1]] = cls(self.prog_id, s[2], self.post, self.sel, name=s[3])
       elif k == 'ctl':
         _, xv, kind, branches, arg = s
         z = ev(arg, locals_, x)
@@ -117,7 +123,8 @@ class ProgBase(nn.Module):
         locals_[s[1]] = insts[s[2]](ev(s[3], locals_, x))
       else:
         raise ValueError(s)
-    return ev(ret, locals_, x)
+    y = ev(ret, locals_, x)
+    return y if self.post is None else self.post(y)
 
 
 LIFTED = {}
@@ -141,7 +148,13 @@ def top_module(prog, pid, sel=None):
   PROGS[pid] = prog
   if sel is None:
     return get_class(prog['top'])(pid, prog['top'])
-  return get_class(prog['top'])(pid, prog['top'], (sel['cond'], sel['switch'], sel['while']))
+  return get_class(prog['top'])(pid, prog['top'], make_post(sel['post']) if sel.get('post') is not None else None, (sel['cond'], sel['switch'], sel['while']))
+
+
+def make_post(k):
+  def post(y):
+    return y * k
+  return post
 
 
 def dec_filter(f):
@@ -194,6 +207,7 @@ def run_apply(module, variables, x, streams, mutable, seed=0, **kw):
   del TRACE[:]
   try:
     r = module.apply(variables, x, rngs=rng_dict(streams, seed), mutable=mutable, **kw)
+    jax.effects_barrier()
     if mutable is False:
       out, upd = r, None
     else:
@@ -208,6 +222,7 @@ def run_init(module, x, streams, seed=0, with_output=True, **kw):
   try:
     if with_output:
       out, v = module.init_with_output(rng_dict(streams, seed), x, **kw)
+      jax.effects_barrier()
       return {'out': [int(a) for a in np.asarray(out).reshape(-1)], 'vars': canon_vars(v), 'trace': list(TRACE), 'raw': v}
     v = module.init(rng_dict(streams, seed), x, **kw)
     return {'vars': canon_vars(v), 'trace': list(TRACE), 'raw': v}
